@@ -523,7 +523,7 @@ func checkStreamWriter(p *Program, r *Result) {
 					if st, ok := in.(*ssa.Store); ok {
 						if fa, ok := st.Addr.(*ssa.FieldAddr); ok && fieldName(fa.X.Type(), fa.Field) == "err" {
 							lastStore = st
-							if isFreshNonSentinelError(st.Val) || knownNonNil[stripConv(st.Val)] {
+							if isFreshNonSentinelError(st.Val) || knownNonNil[stripConv(st.Val)] || p.definitelyNonNil(stripConv(st.Val), 0) {
 								state = "nonnil"
 							} else {
 								state = "unknown"
